@@ -624,6 +624,19 @@ func modeRich(domainsPath string, seed int64, out string) {
 		add("idslice-boundary", rIDSlice(p+q, r), rBytes(a))
 		add("idslice-boundary", rIDSlice("a", "bc"))
 		add("idslice-boundary", rIDSlice("ab", "c"))
+		// identifiers are arbitrary bytes: they may contain what looks like a length word.  If the per-identifier prefix
+		// were a constant (the count, a previous length, zero) these pairs would be written identically.
+		for k := uint64(0); k <= 4; k++ {
+			var wb [8]byte
+			binary.BigEndian.PutUint64(wb[:], k)
+			w := string(wb[:])
+			add("idslice-boundary", rIDSlice("x"+w+"y", "z"))
+			add("idslice-boundary", rIDSlice("x", "y"+w+"z"))
+			add("idslice-boundary", rIDSlice("x"+w+"y", "z", "zz"))
+			add("idslice-boundary", rIDSlice("x", "y"+w+"z", "zz"))
+			add("idslice-boundary", rIDSlice("w", "x"+w+"y", "z"))
+			add("idslice-boundary", rIDSlice("w", "x", "y"+w+"z"))
+		}
 		// 6. polynomials in the exponent: order of coefficients, split / merged, constant flag, against points
 		s1, s2, s3 := rnd32(), rnd32(), rnd32()
 		add("exponent", rExponent(false, s1, s2, s3))
